@@ -134,7 +134,11 @@ def step (cfg : Cfg) (s : ObsState) (e : TEvent) : ObsState × List Delivery :=
   | .awaitingFirst => stepFirst cfg e.time e.ev
   | .observing v1 t1 => stepObserving cfg v1 t1 e.time e.ev
   | .appCancelled => stepCancelled e.ev
-  | .ended => (.ended, [])          -- the pipe discards the event / nothing is left to cancel
+  | .ended =>
+    -- the pipe discards the event (`pipe.py:166-180`); `response.cancel()` finds nothing to do;
+    -- `observation.cancel()` on an observation that `error()` already cancelled trips the
+    -- "cancelled twice" assertion in the application's call: not modelled
+    (if e.ev = .obsCancel then .unmodelled else .ended, [])
   | .unmodelled => (.unmodelled, [])
 
 /-- a whole history; every delivery is tagged with the time of the event that caused it -/
